@@ -792,7 +792,10 @@ Inductive vcase :=
 | CInt (z : Z) (text : list N)                                         (* str(z) *)
 | CIntParse (text : list N) (z : option Z)                             (* int(text) on plain decimals *)
 | CColor (r g b a : N) (text : list N)                                 (* TYPE_CONVERT[COLOR, STRING] *)
-| CColorParse (text : list N) (c : option (Z * Z * Z * Z)).            (* _conv_string_to_color *)
+| CColorParse (text : list N) (c : option (Z * Z * Z * Z))             (* _conv_string_to_color *)
+| CHex (bs : list N) (text : list N)                                   (* TYPE_CONVERT[BINARY, STRING] *)
+| CHexParse (text : list N) (bs : option (list N)).                    (* bytes.fromhex *)
+Definition obytes_eqb (a b : option (list N)) := match a, b with Some x, Some y => s_eqb x y | None, None => true | _, _ => false end.
 Definition chkv (c : vcase) : N := match c with
   | CFloat x t => if s_eqb (float_text gen_float_fmt x) t then 0 else 1
   | CVec xs t => if s_eqb (vec_text gen_float_fmt xs) t then 0 else 2
@@ -801,6 +804,8 @@ Definition chkv (c : vcase) : N := match c with
   | CIntParse t z => if oz_eqb (parse_int t) z then 0 else 5
   | CColor r g b a t => if s_eqb (color_text r g b a) t then 0 else 6
   | CColorParse t c => if ocol_eqb (parse_color py_space t) c then 0 else 7
+  | CHex bs t => if s_eqb (hex_text bs) t then 0 else 8
+  | CHexParse t bs => if obytes_eqb (parse_hex ascii_space t) bs then 0 else 9
   end.
 Fixpoint bad_idx {A} (f : A -> N) (n : N) (l : list A) : list N := match l with [] => [] | x :: r => (if f x =? 0 then [] else [n * 10 + f x]) ++ bad_idx f (n + 1) r end.
 """
@@ -834,8 +839,18 @@ def corr_value_text(ck: Ck) -> None:
     cases = []
     S = dmx.ValueType.STRING
     for i in range(n):
-        k = i % 7
-        if k == 0:
+        k = i % 9
+        if k == 7:
+            bs = bytes(ck.rng.choice([0, 255, 10, 171, ck.rng.randrange(256)]) for _ in range(ck.rng.choice([0, 1, 2, 5])))
+            cases.append(('hex', bs.hex(), f'(CHex {_nl(bs)} {_cps(dmx.TYPE_CONVERT[dmx.ValueType.BINARY, S](bs))})'))
+        elif k == 8:
+            text = ck.rng.choice(['', ' ', 'AB', 'ab cD', 'A B', '0', 'GG', '00\t11\n22', ' 0a0B ', '0a 0', '12  34', bytes(ck.rng.randrange(256) for _ in range(3)).hex(' ')])
+            try:
+                hl = f'(Some {_nl(dmx.TYPE_CONVERT[S, dmx.ValueType.BINARY](text))})'
+            except ValueError:
+                hl = 'None'
+            cases.append(('hex-parse', text, f'(CHexParse {_cps(text)} {hl})'))
+        elif k == 0:
             x = _rand_double(ck.rng)
             cases.append(('float', x, f'(CFloat {_dyadic(x)} {_cps(dmx._fmt_float(x))})'))
         elif k == 1:
@@ -908,7 +923,7 @@ def corr_value_text(ck: Ck) -> None:
         bad += [(lo + v // 10, v % 10) for v in parse_coq_N_list(vals[0])]
     ck.obligation('correspondence:kv2-value-text', not bad,
                   f'{len(cases)} cases: Fmt/DmxValText.v float_text / vec_text (exact %.6f model) vs _fmt_float and TYPE_CONVERT[vector, STRING], '
-                  f'parse_parts vs str.split + count check, int_text / parse_int vs str / int, color_text / parse_color vs the colour converters: '
+                  f'parse_parts vs str.split + count check, int_text / parse_int vs str / int, color_text / parse_color vs the colour converters, hex_text / parse_hex vs bytes.hex / fromhex: '
                   f'{len(bad)} disagreements')
     if bad:
         i, code = bad[0]
@@ -1246,6 +1261,7 @@ OBLIGATIONS = {
     'kv2_vector_text_components_in_order': 'vec_text_components_ok gen_vec_text_written gen_vec_text_read',
     'kv2_color_text_components': 'color_text_ok gen_color_text_written gen_color_text_read',
     'kv2_scalar_text_functions': 'scalar_text_funcs_ok gen_int_text_funcs gen_float_text_funcs',
+    'kv2_binary_text_is_spaced_upper_hex': 'hex_text_ok gen_hex_sep gen_hex_group gen_hex_upper',
     'kv1_element_types_distinct': 'kv1_types_distinct gen_kv1',
     'kv1_keys_written_are_keys_read': 'kv1_keys_agree gen_kv1',
     'kv1_reserved_names_cover_name_and_subkeys': 'kv1_reserved_covers gen_kv1',
